@@ -433,12 +433,21 @@ def handle (M : Mode R) (s : State R) (j : Json) : Except String (State R × Jso
       let mc := buildFolded g frontiers
       let numFolds : Nat → Nat := fun gi => (groups.getD gi []).length
       let topo := (List.range n).all fun m => (g.ins m).all (· < m)
+      -- executable form of the hypothesis `Layered` of theorem C02.buildFolded_valid
+      let flat := frontiers.flatten
+      let layered := flat.length == n && (List.range n).all (fun m => flat.count m == 1) &&
+        (List.range frontiers.length).all (fun k => (frontiers.getD k []).all fun m =>
+          (g.ins m).all fun i => ((frontiers.take k).flatten).contains i) &&
+        (List.range n).all (fun m => (List.range n).all fun m' =>
+          g.key m != g.key m' || (g.ins m).length == (g.ins m').length) &&
+        g.outputs.all (· < n)
       let entries := (List.range groups.length).map fun gi =>
         let e := stackedEntry (inIdx.getD gi []) numFolds
         Json.mkObj [("ids", toJson e.1), ("idx", toJson e.2)]
       let outEntry := stackedEntry [outIdx] numFolds
       pure (s, Json.mkObj [("valid", Json.bool (c.valid g)), ("topo", Json.bool topo),
-        ("model_groups", toJson mc.groups),
+        ("model_groups", toJson mc.groups), ("layered", Json.bool layered),
+        ("model_valid", Json.bool (mc.valid g)),
         ("model_same", Json.bool (mc.groups == groups && mc.outIdx == outIdx &&
             mc.inIdx == inIdx)),
         ("entries", Json.arr entries.toArray),
